@@ -648,6 +648,43 @@ func connectTo(R *ev.Run) {
 			})
 		}
 	}
+	// one option value applied to two attackers (a shared options slice): each attacker rotates by itself
+	for nr := 2; nr <= 4; nr++ {
+		all := []string{"1.1.1.1:81", "2.2.2.2:82", "3.3.3.3:83", "4.4.4.4:84"}[:nr]
+		opt := vegeta.ConnectTo(map[string][]string{"a.test:80": all})
+		var got [2][]string
+		var trs [2]*http.Transport
+		for k := range trs {
+			k := k
+			trs[k] = &http.Transport{DialContext: func(ctx context.Context, network, addr string) (net.Conn, error) {
+				got[k] = append(got[k], addr)
+				return fakeConn{}, nil
+			}}
+			vegeta.NewAttacker(vegeta.Client(&http.Client{Transport: trs[k]}), opt)
+		}
+		for round := 0; round < 2*nr; round++ {
+			for k := range trs {
+				trs[k].DialContext(context.Background(), "tcp", "a.test:80")
+				R.Trans(1)
+			}
+		}
+		R.Eval(1)
+		R.Distinct(fmt.Sprint("ct-shared-option", nr))
+		R.Part("connect-to", "one option value on two attackers", 1)
+		for k := range got {
+			cnt := map[string]int{}
+			for _, a := range got[k] {
+				cnt[a]++
+			}
+			for _, a := range all {
+				if cnt[a] != 2 {
+					R.Violation("connect-to:uneven-rotation:option-shared-by-two-attackers", map[string]any{"replacements": all, "attacker": k, "dials": got[k]})
+					break
+				}
+			}
+		}
+	}
+
 }
 
 // raceCompanion runs ../c18race (unrewritten code, free-running, -race).
